@@ -142,21 +142,23 @@ theorem C08_list_inputs_covers (a : Args) (es : List Entry) (tree : List (Entry 
     exact .inr ⟨x, hx, rfl⟩
 
 /-- T3, stated over paths: every file the active loader's enumeration reaches is printed *as its own path* — for a
-`--templates` directory every file below it (any depth) whose name ends in `.j2`, for the built-in package every
-loadable name with suffix `.j2`.  Two files with the same base name in different folders are two list items
+`--templates` directory every file below it (any depth; a file that is a symbolic link is printed as its resolved
+target) whose name ends in `.j2`, for the built-in package every loadable name with suffix `.j2`.  The hypothesis
+`viaLinkedDir = false` excludes the third known finding: a file below a symbolically linked *sub-directory* is opened
+by Jinja but not enumerated (witness below).  Two files with the same base name in different folders are two list items
 (no de-duplication by name). -/
 theorem C08_list_inputs_every_template_path (a : Args) (es : List Entry) (tree : List (Entry × OutPath))
     (hacc : accepted a = true) (htree : buildTree a (treeEntries a es) = .ok tree) (hon : a.genSupport ≠ .only) :
     (∀ fs, a.templates = some fs → ∀ f ∈ fs, (".j2".toList).isSuffixOf f.name.toList = true →
-        f.path ∈ (run .listInputs a es).inputs) ∧
+        f.viaLinkedDir = false → f.path ∈ (run .listInputs a es).inputs) ∧
     (a.templates = none → ∀ n ∈ a.lang.loadable, isJ2 n = true →
         (builtinTemplateFile a "templates" n).path ∈ (run .listInputs a es).inputs) := by
   obtain ⟨h1, _, _⟩ := C08_list_inputs_covers a es tree hacc htree
   refine ⟨?_, ?_⟩
-  · intro fs ht f hf hj
+  · intro fs ht f hf hj hl
     apply h1 hon
     simp only [typeTemplates, ht, List.mem_filter]
-    exact ⟨hf, hj⟩
+    exact ⟨hf, by simp [hj, hl]⟩
   · intro ht n hn hj
     apply h1 hon
     simp only [typeTemplates, ht, typeLoaderFiles, List.mem_filter, List.mem_map]
@@ -288,20 +290,20 @@ example : ∃ r ∈ reads { wArgs with lang := lang_html } [],
 /-- DEFECT (unchanged code, shadowed support template): a `serialization.j2` in `--support-templates` is what the
 support generator renders, the packaged one is what `--list-inputs` printed.  `runBeforeFix` violates T3 … -/
 example :
-    let a := { wArgs with supportTemplates := some [⟨"serialization.j2", "/custom/serialization.j2"⟩] }
+    let a := { wArgs with supportTemplates := some [⟨"serialization.j2", "/custom/serialization.j2", false⟩] }
     ∃ r ∈ reads a [], r ∉ (runBeforeFix .listInputs a []).inputs :=
   ⟨"/custom/serialization.j2", by decide, by decide⟩
 
 /-- … and the repaired listing prints the file that is read. -/
 example :
-    let a := { wArgs with supportTemplates := some [⟨"serialization.j2", "/custom/serialization.j2"⟩] }
+    let a := { wArgs with supportTemplates := some [⟨"serialization.j2", "/custom/serialization.j2", false⟩] }
     "/custom/serialization.j2" ∈ (run .listInputs a []).inputs ∧
     "/pkg/nunavut/lang/c/support/serialization.j2" ∉ (run .listInputs a []).inputs := by decide
 
 /-- Same-named templates in different folders of `--templates` (seeded change C08-2): both paths are printed. -/
 def wTreeDir : List TemplateFile :=
-  [⟨"Any.j2", "/t/Any.j2"⟩, ⟨"header.j2", "/t/header.j2"⟩, ⟨"parts/header.j2", "/t/parts/header.j2"⟩,
-   ⟨"parts/deep/header.j2", "/t/parts/deep/header.j2"⟩, ⟨"data/values.txt", "/t/data/values.txt"⟩]
+  [⟨"Any.j2", "/t/Any.j2", false⟩, ⟨"header.j2", "/t/header.j2", false⟩, ⟨"parts/header.j2", "/t/parts/header.j2", false⟩,
+   ⟨"parts/deep/header.j2", "/t/parts/deep/header.j2", false⟩, ⟨"data/values.txt", "/t/data/values.txt", false⟩]
 
 example :
     (run .listInputs { wArgs with genSupport := .never, templates := some wTreeDir } wEntries).inputs =
@@ -316,6 +318,14 @@ example :
       [["t", "lnk", "..", "gen", "app", "Use_1_0.h"]] ∧
     generated { wArgs with outdir := ["", "t", "lnk", "..", "gen"], genSupport := .never } wEntries =
       [["t", "lnk", "..", "gen", "app", "Use_1_0.h"]] := by decide
+
+/-- A template that is itself a symbolic link is listed (as its target); one below a linked sub-directory
+(KNOWN FINDING template-in-symlinked-dir) is rendered but not listed. -/
+example :
+    (run .listInputs { wArgs with genSupport := .never, templates := some
+        (wTreeDir ++ [⟨"license.j2", "/shared/license.j2", false⟩, ⟨"linked/part.j2", "/elsewhere/part.j2", true⟩]) } wEntries).inputs =
+      ["/t/Any.j2", "/t/header.j2", "/t/parts/header.j2", "/t/parts/deep/header.j2", "/shared/license.j2", "/ns/app/Use.1.0.dsdl"] := by
+  decide
 
 end witnesses
 
